@@ -31,6 +31,8 @@ RES = 0.01
 def generate(rng, tier='quick', stack=None, focus='general', **kw):
   if focus == 'c09':
     return generate_c09(rng, tier, stack, **kw)
+  if focus == 'burst':
+    return generate_burst(rng, tier, stack, **kw)
   stack = stack or rng.choice(['thrift', 'mux'])
   big = tier != 'quick'
   n_eps = rng.choice([1, 1, 2, 2, 3, 4] if not big else [1, 2, 3, 4, 5, 6])
@@ -189,9 +191,65 @@ def generate(rng, tier='quick', stack=None, focus='general', **kw):
                      'do': rng.choice(['leave', 'join']), 'ep': rng.randrange(n_eps)})
   if rng.random() < 0.12:
     faults.append({'t': round(rng.uniform(end * 0.5, end + 1.0), 4), 'do': 'close'})
+  elif rng.random() < 0.12 and ops:
+    # the caller closes the client the moment one of its calls completes (e.g.
+    # straight from an except block); make that call die with its connection
+    o = rng.choice(ops)
+    if rng.random() < 0.7:
+      o['svc'] = {'delay': rng.choice([0.001, 0.01]), 'kind': rng.choice(['reset', 'close'])}
+    scn['close_on'] = o['id']
   faults.sort(key=lambda f: f['t'])
   scn['faults'] = faults
   scn['directives'] = directives
+  return scn
+
+
+def generate_burst(rng, tier='quick', stack=None, **kw):
+  """Waves of many concurrently outstanding calls on few connections: every
+  wave is fully answered before the next (larger or smaller) one starts, so
+  tag / connection free lists grow, drain and are re-used."""
+  stack = stack or rng.choice(['thrift', 'mux'])
+  n_eps = rng.choice([1, 1, 2])
+  balancer = rng.choice(['aperture', 'heap'])
+  scn = {'world': 'w_stack', 'stack': stack, 'balancer': balancer, 'focus': 'burst', 'iface': 'sim',
+         'client_id': None,
+         'eps': [{'latency': rng.choice([0.0002, 0.001]), 'mode': 'up'} for _ in range(n_eps)]}
+  cfg = {'timeout': 5.0, 'open_timeout': rng.choice([None, 0]),
+         'resurrector': {'initial_wait_interval': 5, 'max_wait_interval': 30, 'backoff_exponent': 1.5},
+         'members_dynamic': False, 'get_servers_delay': 0, 'init_failures': 0}
+  if stack == 'thrift':
+    cfg['pool'] = {'min_watermark': rng.randint(0, 2), 'max_watermark': rng.choice([1, 3, 8, 2 ** 31 - 1]),
+                   'max_queue_len': 2 ** 31 - 1}
+  else:
+    cfg['tag_base'] = rng.choice([None, None, 250, 65530])
+    cfg['answer_discards'] = True
+  if balancer == 'aperture':
+    cfg['aperture'] = {'min_size': n_eps, 'max_size': 2 ** 31, 'min_load': 0.5, 'max_load': 2.0,
+                       'jitter_min_sec': 0, 'jitter_max_sec': 240}
+  scn['cfg'] = cfg
+  scn['net'] = {'chunk': rng.choice(['none', 'some']), 'jitter': rng.choice([0.0, 0.0003]), 'dns_multi': False}
+  scn['loop'] = {'batch_break': rng.random() < 0.3}
+  scn['permute_sets'] = rng.random() < 0.3
+  ops = []
+  t = rng.choice([0.0, 0.05])
+  i = 0
+  size = rng.choice([8, 20, 33, 40, 48, 64]) * n_eps
+  for w in range(rng.randint(2, 4)):
+    for _ in range(size):
+      m = rng.choice(['echo', 'echo', 'echo', 'poke', 'risky'])
+      svc = {'delay': rng.choice([0.0, 0.001, 0.005, 0.02, 0.05])}
+      if rng.random() < 0.05:
+        svc['kind'] = 'appexc'
+      ops.append({'t': round(t, 6), 'op': 'call', 'id': 'c%d' % i, 'method': m, 'payload': rng.choice(PAYLOADS),
+                  'timeout': None, 'svc': svc, 'via': 'dispatch'})
+      i += 1
+      if rng.random() < 0.2:
+        t += 0.0002
+    t += rng.choice([0.3, 1.0])
+    size = max(1, size + rng.choice([-20, -3, 1, 1, 2, 5, 17]) * n_eps)
+  scn['ops'] = ops
+  scn['faults'] = []
+  scn['directives'] = []
   return scn
 
 
@@ -263,7 +321,11 @@ def generate_c09(rng, tier='quick', stack=None, **kw):
     k = ops.index(o)
     for oo in ops[max(0, k - 2):k + 1]:
       oo['svc'] = {'delay': rng.choice([0.05, 0.2, 0.5])}
-    faults.append({'t': round(o['t'] + rng.choice([0.0005, 0.003, 0.02]), 4), 'do': 'close'})
+    if rng.random() < 0.4:
+      o['svc'] = {'delay': rng.choice([0.001, 0.01]), 'kind': rng.choice(['reset', 'close'])}
+      scn['close_on'] = o['id']
+    else:
+      faults.append({'t': round(o['t'] + rng.choice([0.0005, 0.003, 0.02]), 4), 'do': 'close'})
     scn['horizon_extra'] = res['max_wait_interval'] + 6.0
     del ops[k + 8:]
   faults.sort(key=lambda f: f['t'])
